@@ -293,6 +293,50 @@ def _holds_point(ctx, inp, io):
     return None
 
 
+ANCHOR_TOL = "1/1125899906842624"   # 2^-50, relative to the larger bound: how far a binary64 midpoint may be from (a+b)/2
+_MID_T = ("center", "top-center", "bottom-center")
+_MID_F = ("center", "center-left", "center-right")
+
+
+def _holds_anchor(ctx, inp, io):
+    """wave 5: the anchor-point clause judged on the float values themselves (Lean `holdsAnchor`, meaning fixed by
+    C05_anchor_holds_sound / _model): inside the bounds of the coordinates as floats, corner / edge components equal
+    to the bound bit for bit, midpoint components inside [lo, hi] and within 2^-50 (relative) of (lo + hi) / 2"""
+    if inp["pos"] not in BOUNDS_POS:
+        return None
+    if "val" not in io:
+        return "get_geometry_point raised for a named position"
+    r = ctx.model("holds_anchor", {"g": inp["g"], "pos": inp["pos"], "p": io["val"], "tol": ANCHOR_TOL})
+    if r.get("val") is True:
+        return None
+    b = ctx.model("bounds", {"g": inp["g"]}).get("val")
+    why = "a corner / edge component is not the bound itself, or a midpoint is not the midpoint"
+    try:
+        x, y = frac(io["val"][0]), frac(io["val"][1])
+        st, lo, en, hi = (frac(v) for v in b)
+        if not (st <= x <= en and lo <= y <= hi):
+            why = "the point lies outside the bounds of the coordinates"
+    except Exception:  # noqa: BLE001
+        pass
+    return (f"anchor point {inp['pos']} = ({_f(io['val'][0])!r}, {_f(io['val'][1])!r}) does not agree with the bounds "
+            f"{[_f(v) for v in b] if b else b!r}: {why}")
+
+
+def _cmp_anchor(inp, io, mo):
+    """corner / edge components: the very float (exact equality with the model, which selects a bound);
+    midpoint components: one correct rounding of (a + b) / 2, or within 2 ulp of it (`a + (b - a) / 2` rounds twice)"""
+    if "val" not in io or "val" not in mo:
+        return None if io == mo else "implementation and model disagree"
+    mids = (inp["pos"] in _MID_T, inp["pos"] in _MID_F)
+    for x, y, mid, axis in zip(io["val"], mo["val"], mids, ("time", "frequency")):
+        if mid:
+            if not _num_eq_round_once(x, y):
+                return f"{axis} {x} is not the correctly rounded midpoint {y}"
+        elif x != y:
+            return f"{axis} {_f(x)!r} is not the bound {_f(y)!r} itself"
+    return None
+
+
 def _excursion(ctx, inp, p):
     """(relative distance of p outside the bounds of the coordinates (the model's), every violated axis has zero
     extent, largest relative extent of a violated axis)"""
@@ -1002,6 +1046,8 @@ OPS = {
     "features_free": Op("features_free", _impl_features, compare=_cmp_features_free, mode="round-once",
                         model_op="features"),
     "point_free": Op("point_free", _impl_point, compare=_cmp_point_free, mode="round-once", model_op="point"),
+    "anchor_free": Op("anchor_free", _impl_point, compare=_cmp_anchor, holds=_safe(_holds_anchor), mode="round-once",
+                      model_op="point"),
     "lib_point": Op("lib_point", _impl_lib_point, to_model=_to_model_lib, holds=_safe(_holds_lib_point),
                     mode="tolerance", model_op="point"),
     # review additions
@@ -1639,6 +1685,134 @@ def free_geometries(rng, n):
     return out
 
 
+def decimal_geometries(rng, n):
+    """wave 5: ordinary decimal coordinates (milliseconds, tenths of Hz, ...) and arbitrary binary64 values of all nine
+    types: almost no sum or difference of two coordinates is exact, and `end > 2 * start` half of the time (then
+    `end - start` is inexact and `start + (end - start)` need not be `end`)"""
+    def t():
+        k = rng.randrange(7)
+        if k == 0:
+            return round(rng.uniform(0, 100), 3)
+        if k == 1:
+            return round(rng.uniform(0, 3600), 3)
+        if k == 2:
+            return round(rng.uniform(0, 10), 2)
+        if k == 3:
+            return round(rng.uniform(0, 1), 6)
+        if k == 4:
+            return rng.uniform(0, 100)
+        if k == 5:
+            return round(rng.uniform(0, 100000), 1)
+        return round(rng.uniform(0, 30), 4)
+
+    def f():
+        k = rng.randrange(6)
+        if k == 0:
+            return round(rng.uniform(0, 24000), 1)
+        if k == 1:
+            return round(rng.uniform(0, 250000), 1)
+        if k == 2:
+            return round(rng.uniform(0, 12000), 2)
+        if k == 3:
+            return rng.uniform(0, M)
+        if k == 4:
+            return round(rng.uniform(0, 100), 3)
+        return round(rng.uniform(0, float(M)), 1)
+
+    def pair(draw):
+        """a sorted pair of drawn values; half of the time rejection-sampled so that `a + (b - a) != b` in binary64 (about
+        3 % of the decimal pairs), a quarter of the time so that `b - (b - a) != a` (about 30 %)"""
+        a, b = sorted([draw(), draw()])
+        u = rng.random()
+        if u < 0.75:
+            for _ in range(200):
+                if (a + (b - a) != b) if u < 0.5 else (b - (b - a) != a):
+                    break
+                a, b = sorted([draw(), draw()])
+        return a, b
+
+    def between(a, b, digits):
+        return min(b, max(a, round(rng.uniform(a, b), digits)))
+
+    def cloud(k):
+        """k vertices whose extreme times / frequencies are a drawn pair each"""
+        (a, b), (l, h) = pair(t), pair(f)
+        ts = [a, b] + [between(a, b, 3) for _ in range(k - 2)]
+        fs = [l, h] + [between(l, h, 1) for _ in range(k - 2)]
+        rng.shuffle(ts)
+        rng.shuffle(fs)
+        return [[x, y] for x, y in zip(ts[:k], fs[:k])]
+
+    def poly():
+        (a, b), (l, h) = pair(t), pair(f)
+        if rng.random() < 0.5:
+            return [[[a, l], [b, between(l, h, 1)], [between(a, b, 3), h]]]
+        ring = [[a, l], [b, l], [b, h], [a, h]]
+        if b > a and h > l and rng.random() < 0.6:
+            q = [a + (b - a) * u for u in (0.25, 0.5, 0.75)]
+            r = [l + (h - l) * u for u in (0.25, 0.75)]
+            return [ring, [[q[0], r[0]], [q[2], r[0]], [q[1], r[1]]]]
+        return [ring]
+    out = []
+    for i in range(n):
+        ty = gen_geom.TYPES[i % len(gen_geom.TYPES)]
+        if ty == "TimeStamp":
+            c = t()
+        elif ty == "TimeInterval":
+            c = list(pair(t))
+        elif ty == "Point":
+            c = [t(), f()]
+        elif ty == "BoundingBox":
+            (a, b), (l, h) = pair(t), pair(f)
+            c = [a, l, b, h]
+        elif ty in ("LineString", "MultiPoint"):
+            c = cloud(rng.randint(1 if ty == "MultiPoint" else 2, 5))
+        elif ty == "MultiLineString":
+            c = [cloud(rng.randint(2, 4)) for _ in range(rng.randint(1, 3))]
+        elif ty == "Polygon":
+            c = poly()
+        else:
+            c = [poly() for _ in range(rng.randint(1, 3))]
+        g = _try_norm({"type": ty, "coordinates": gen_geom._enc_f(c)})
+        if g is not None:
+            out.append(g)
+    return out
+
+
+def decimal_fixed():
+    """hand-picked decimal geometries: `8.936 + 1.0 * (81.492 - 8.936)` is one ulp above 81.492, same on the
+    frequency axis for [1200.7, 9077.3]; every type carries such a pair"""
+    gs = [
+        ("TimeInterval", [8.936, 81.492]), ("BoundingBox", [8.936, 1200.7, 81.492, 9077.3]),
+        ("BoundingBox", [5.677, 823.1, 92.485, 2648.0]), ("BoundingBox", [0.1, 0.3, 0.7, 1.1]),
+        ("LineString", [[8.936, 9077.3], [20.5, 1200.7], [81.492, 2500.1]]),
+        ("MultiPoint", [[8.936, 1200.7], [81.492, 9077.3]]),
+        ("MultiLineString", [[[8.936, 1200.7], [40.0, 900.0]], [[30.0, 700.0], [81.492, 9077.3]]]),
+        ("Polygon", [[[8.936, 1200.7], [81.492, 1200.7], [81.492, 9077.3], [8.936, 9077.3]],
+                     [[12.0, 2000.0], [14.0, 2000.0], [13.0, 2500.0]]]),
+        ("MultiPolygon", [[[[8.936, 1200.7], [9.0, 1300.2], [10.0, 1200.7]]],
+                          [[[50.0, 3000.3], [81.492, 4000.4], [60.0, 9077.3]]]]),
+        ("TimeStamp", 81.492), ("Point", [81.492, 9077.3]),
+        ("BoundingBox", [8.936, 1200.7, 8.936, 1200.7]), ("TimeInterval", [81.492, 81.492]),
+    ]
+    return [g for g in (_try_norm({"type": ty, "coordinates": gen_geom._enc_f(c)}) for ty, c in gs) if g is not None]
+
+
+def _anchor_stage(ctx):
+    """wave 5 (seeded C05-10): the nine bounds positions of decimal geometries judged on the float values
+    (corner / edge components are the bounds bit for bit, every component inside the bounds, midpoints one rounding
+    of (a + b) / 2 up to 2 ulp); centroid / point_on_surface of the same geometries by the inside-the-bounds monitor"""
+    geoms = _dedupe(decimal_fixed() + decimal_geometries(ctx.rng, ctx.budget(720, 9000)))
+    _tally_geoms(ctx, geoms, "decimal")
+    ctx.run_cases(OPS["bounds"], [{"g": g} for g in geoms])
+    fs = ctx.run_cases(OPS["anchor_free"], _with_positions(geoms, BOUNDS_POS))
+    ctx.run_cases(OPS["lib_point"], _with_positions(geoms[: max(40, len(geoms) // 3)], LIB_POS))
+    inexact = sum(1 for g, b in zip(geoms, ctx.model_many("bounds", [{"g": g} for g in geoms]))
+                  if "val" in b and _f(b["val"][0]) + (_f(b["val"][2]) - _f(b["val"][0])) != _f(b["val"][2]))
+    ctx.tally("decimal:start+(end-start)!=end", inexact)
+    return fs
+
+
 def invalid_polygons(rng, n):
     """polygons the data model accepts although a ring crosses itself (bow ties, figure eights), on the
     grid: inside the property's quantifier ("every geometry"), outside OGC validity"""
@@ -2026,6 +2200,7 @@ def run(ctx):
     _timed(ctx, "numeric-boundaries", _boundary_stage, ctx)
     _timed(ctx, "size-thresholds", _size_stage, ctx)
     _timed(ctx, "non-dyadic-lattice", _lattice_stage, ctx)
+    _timed(ctx, "decimal-anchor-points", _anchor_stage, ctx)
     _timed(ctx, "call-histories", _call_history_stage, ctx)      # last: the only stage that poisons results
     ctx.stage("verify-replays", _verify_replays, ctx)
 
